@@ -46,6 +46,11 @@ pub struct SemaphorePermit<'a> { s: &'a Semaphore }
 #[derive(Debug)]
 pub struct AcquireError { k: usize }
 impl Semaphore {
+    /// a fresh semaphore with `permits` permits: the initial state of the accounting
+    #[verifier::external_body]
+    pub fn verif_new(Tracked(g): Tracked<&mut Slots>, permits: usize) -> (r: Semaphore)
+        ensures final(g).max == permits, final(g).avail == permits, final(g).held == 0, final(g).owed == 0, final(g).handlers == 0
+    { unimplemented!() }
     /// T-SEM: acquire completes only when a permit is available and takes it (atomically); the permit is held by the returned guard.
     /// It fails only on a closed semaphore, and nothing in src/ closes it.
     #[verifier::external_body]
@@ -84,7 +89,15 @@ impl TcpStream {
     #[verifier::external_body]
     pub fn set_nodelay(&self, on: bool) -> io::Result<()> { unimplemented!() }
 }
+#[verifier::external_body]
+#[derive(Debug)]
+pub struct IpAddr { k: usize }
+/// `&format!("{}:{}", conf.host, conf.port)` (rule R-macro): the textual socket address
+#[verifier::external_body]
+pub fn verif_socket_addr(host: &IpAddr, port: u16) -> String { unimplemented!() }
 impl TcpListener {
+    #[verifier::external_body]
+    pub async fn bind(addr: &String) -> io::Result<TcpListener> { unimplemented!() }
     #[verifier::external_body]
     pub async fn accept(&self) -> io::Result<(TcpStream, SocketAddr)> { unimplemented!() }
 }
@@ -99,6 +112,8 @@ pub mod time {
     pub async fn sleep(d: super::Duration) { unimplemented!() }
 }
 pub mod broadcast {
+    #[verifier::external_body]
+    pub fn channel<T>(n: usize) -> (Sender<T>, Receiver<T>) { unimplemented!() }
     #[verifier::external_body]
     #[verifier::reject_recursive_types(T)]
     pub struct Sender<T> { t: core::marker::PhantomData<T> }
@@ -118,6 +133,8 @@ pub mod broadcast {
     }
 }
 pub mod mpsc {
+    #[verifier::external_body]
+    pub fn channel<T>(n: usize) -> (Sender<T>, Receiver<T>) { unimplemented!() }
     #[verifier::external_body]
     #[verifier::reject_recursive_types(T)]
     pub struct Sender<T> { t: core::marker::PhantomData<T> }
